@@ -135,11 +135,46 @@ def glushkov_rule(rep):
     rep.floor("C07.c", n, 30)
 
 
+def cdata_content_rule(rep):
+    from ..engines import guard
+    rep.rule("C07.d", "a CDATA section is character data (VC: Element Valid): in scanCDSection of the validating scanners every report "
+             "of NoCharDataInCM is controlled by exactly the test `character-data options != AllCharData` — element-only content "
+             "(SpacesOk) rejects a CDATA section just as EMPTY does, even a blank one; a weaker test (only NoCharData) lets "
+             "<a><![CDATA[x]]><b/></a> pass for <!ELEMENT a (b)>")
+    sites = [("IGXMLScanner::scanCDSection", "src/xercesc/internal/IGXMLScanner2.cpp"), ("DGXMLScanner::scanCDSection", "src/xercesc/internal/DGXMLScanner.cpp"),
+             ("SGXMLScanner::scanCDSection", "src/xercesc/internal/SGXMLScanner.cpp")]
+    g = core.run_xa([os.path.join(core.REPO, fl) for _, fl in sites], cfg=r"^(IG|DG|SG)XMLScanner::scanCDSection$", flat=False)
+    n = 0
+    for q, fl in sites:
+        cfg = guard.Cfg(g.cfg(q))
+        ss = guard.sites(cfg, lambda x: x[0] == "c" and x[1].endswith("::emitError") and any(
+            isinstance(a, list) and a and a[0] == "e" and a[1] == "XMLValid::NoCharDataInCM" for a in x[3]))
+        if not ss:
+            raise AnalysisBroken("%s no longer reports NoCharDataInCM" % q)
+        for bid, i, el in ss:
+            n += 1
+            ok = False
+            seen = []
+            for cond, pol, _p in guard.controlling(cfg, bid):
+                if cond[0] == "b" and cond[1] in ("!=", "==") and any(isinstance(y, list) and y and y[0] == "e" and y[1].endswith("::AllCharData")
+                                                                         for y in (cond[2], cond[3])):
+                    if (cond[1] == "!=") == pol:
+                        ok = True
+                if any(isinstance(y, list) and y and y[0] == "e" and "CharData" in y[1] or (isinstance(y, list) and y and y[0] == "e" and y[1].endswith("::SpacesOk"))
+                       for y in core.sx_walk(cond)):
+                    seen.append(("" if pol else "!") + core.sx_str(cond))
+            rep.ob("C07.d", "%s@%s" % (q, el.get("l")), ok, "reported whenever the content model does not allow all character data" if ok else
+                   "%s (line %s): NoCharDataInCM is reported under %s, not under `options != AllCharData`: a CDATA section in element-only "
+                   "content is accepted" % (q, el.get("l"), seen or "no test of the character-data options"), "%s:%s" % (fl, el.get("l", 0)))
+    rep.floor("C07.d", n, 4)
+
+
 def run(rep):
     f = core.library_facts()
     rep.units.update(os.path.relpath(t, core.REPO) for t in f.tus)
     severity_rule(rep)
     glushkov_rule(rep)
+    cdata_content_rule(rep)
     diag.run(rep, f, "C07")
     dispatch.run(rep, f, "C07")
     rep.undecided += ["that the automaton built from a content model accepts exactly the declared language (DFA construction, nullability, "
